@@ -27,7 +27,7 @@ RULE = ("Hypothesis draws a store state (empty, or populated by a generated hist
 ASSUMPTIONS = ["for format ids only whitespace-only strings are documented as rejected; other odd format "
                "ids are checked conditionally (if the call raises, nothing changed)"]
 
-BADID = [None, "", " ", "a b", "a\tb", "a\nb", " x", "x ", " ", "a b"]
+BADID = [None, "", " ", "a b", "a\tb", "a\nb", " x", "x ", " ", "a b", "x\u00a0", "\u3000x", "x\x1c", "x\u2028y", "\x85x"]
 BADALG = ["sm3", "md4", "sha", "", "  ", "sha 256", "SHA-257", "sha3256", None]
 BADSIZE = [0, -1, -39993, "12", 1.5, "x"]
 BADDATA = ["none", "int", "bytes", "list", "stringio", "empty", "blank", "missing", "dir"]
